@@ -305,13 +305,30 @@ def main(argv=None):
     if new_viol:
         rc = 1
         from pyvc import replay as RP
-        seen = set()
+        # one report per (function, clause); among the configurations that refute it, the first whose countermodel
+        # replays on the real code is the one reported (abstract configurations -- arbitrary maps -- cannot replay,
+        # their concrete companions can)
+        groups = {}
         for fn, cfg, ob in new_viol:
-            key = (fn, ob["name"].split("[")[0])
-            if key in seen and not a.verbose:
+            groups.setdefault((fn, ob["name"].split("[")[0]), []).append((fn, cfg, ob))
+        picked = []
+        for key, lst in groups.items():
+            if a.verbose:
+                picked += [(x, None) for x in lst]
                 continue
-            seen.add(key)
-            path, confirmed = RP.write_replay(prop, fn, cfg, ob, do_run=not a.no_replay)
+            best = None
+            for cand in lst[:4]:
+                path, confirmed = RP.write_replay(prop, cand[0], cand[1], cand[2], do_run=not a.no_replay)
+                if best is None:
+                    best = (cand, (path, confirmed))
+                if confirmed:
+                    best = (cand, (path, confirmed))
+                    break
+                if a.no_replay:
+                    break
+            picked.append(best)
+        for (fn, cfg, ob), done in picked:
+            path, confirmed = done if done is not None else RP.write_replay(prop, fn, cfg, ob, do_run=not a.no_replay)
             replay_paths.append(path)
             lines.append("VIOLATION property=%s replay=%s%s" % (prop, path, "" if confirmed else " no-failing-input-found"))
             lines.append("  obligation %s of %s cfg=%s path=%s: refuted%s" % (
